@@ -599,6 +599,9 @@ func (m *scanModel) effects(cfg smConfig, p *Path, t *smTrans) {
 	appended := false
 	gorNow := gorStr
 	idxNow := "s.goroutineIndex"
+	pendingLast := false
+	var pendingPos token.Pos
+	var pendingVal *Expr
 	eff := map[string]bool{}
 	prefixSucc := []bool{cfg.Pne}
 	problem := func(rule, key, msg string, pos token.Pos) {
@@ -733,6 +736,10 @@ func (m *scanModel) effects(cfg smConfig, p *Path, t *smTrans) {
 				case vs == "(len("+gorNow+") - 1)" && (appended || f.Gne):
 					eff["index:=last"] = true
 					f.I, f.R = true, false
+				case !appended && (vs == "len("+gorNow+")" || (vs == "0" && !cfg.Gne)):
+					// the index of the goroutine appended next: judged at the append
+					pendingLast, pendingPos, pendingVal = true, ev.Pos, v
+					f.I, f.R = false, false
 				default:
 					if k, ok := v.intConst(); ok {
 						// must be the range index of the goroutine whose ID matched
@@ -763,6 +770,11 @@ func (m *scanModel) effects(cfg smConfig, p *Path, t *smTrans) {
 					appended = true
 					f.Gne = true
 					f.C, f.B = false, false
+					if pendingLast {
+						pendingLast = false
+						eff["index:=last"] = true
+						f.I, f.R = true, false
+					}
 					m.checkNewGoroutine(cfg, p, t, ev, problem, eff)
 				} else if isEmptyPrealloc(ev.Val) {
 					if cfg.Gne {
@@ -789,6 +801,11 @@ func (m *scanModel) effects(cfg smConfig, p *Path, t *smTrans) {
 		case EvMapUpd, EvSend, EvGo, EvDefer:
 			problem("SM-ref", "state:"+cfg.State+"/"+ev.Kind, "unexpected "+ev.Kind+" in scan", ev.Pos)
 		}
+	}
+	if pendingLast {
+		eff["index:=other"] = true
+		f.I, f.R = false, false
+		problem("SM-raceidx", "state:"+cfg.State+"/index-other", "goroutineIndex is set to the index behind the last goroutine and no goroutine is appended: "+pendingVal.Canon(m.hook), pendingPos)
 	}
 	for e := range eff {
 		t.Effects = append(t.Effects, e)
